@@ -50,6 +50,9 @@ def gen_value(rng, d, c, ex=()):
     for _ in range(rng.randint(1, 3)):
         ct = grammar.token(rng, d + c + '"', 1, 8, first_forbid="[" + BLc, inner_blank=True, extra=ex).rstrip(BLc) or "c"
         lines.append(grammar.blanks(rng, 1, 3) + ct)
+    if len(lines) >= 3 and rng.chance(0.2):
+        # a paragraph break inside the value: an INTERIOR continuation line that holds nothing but its indentation
+        lines.insert(rng.randrange(2, len(lines)), grammar.blanks(rng, 1, 3))
     return "\n".join(lines)
 
 
@@ -67,6 +70,8 @@ def gen_world(rng, i, tier):
         ex = grammar.HIGH if rng.chance(0.25) else ()       # text that is not ASCII: bytes with the top bit set
         secs = [None] + [grammar.token(rng, "]" + c, 1, 6, first_forbid="[" + BLc, inner_blank=True, extra=ex).rstrip(BLc) or "S" for _ in range(rng.randint(1, 3))]
         secs = [s for s in secs if s != "_none_"]
+        if rng.chance(0.08):
+            secs.append(rng.pick(["_oNne_", "_nonf>", "a,one_"]))        # texts with the hash of the reserved placeholder
         if rng.chance(0.12):
             secs.append("[" + rng.pick(["opt", "x y", "a.b"]))      # a name may start with '[' as long as it does not also end with ']'
             if rng.chance(0.5):
